@@ -224,12 +224,34 @@ func CmdCheck(opts Options, prop string) int {
 			failures = append(failures, failure{d, "undecided: " + d.V.Output})
 		}
 	}
-	// vacuity guard: every obligation proved on the unchanged tree must still be generated
+	// vacuity guard: every contract clause proved on the unchanged tree must still be generated. Only obligations
+	// that come from written clauses are compared (post / lemma / invariants / callee preconditions), by name without
+	// the occurrence suffix; automatically generated safety and frame obligations depend on the shape of the code and
+	// may legitimately come and go with a refactoring.
+	clauseKind := func(n string) bool {
+		return strings.Contains(n, "/post/") || strings.Contains(n, "/lemma/") || strings.Contains(n, "/inv-init/") || strings.Contains(n, "/inv-pres/")
+	}
+	base := func(n string) string {
+		if i := strings.Index(n, "~"); i >= 0 {
+			return n[:i]
+		}
+		return n
+	}
+	seenBase := map[string]bool{}
+	for n := range seen {
+		seenBase[base(n)] = true
+	}
 	var missing []string
+	missDone := map[string]bool{}
 	for n := range inLedger {
-		if !seen[n] {
+		if !clauseKind(n) || strings.Contains(n, "auto-backing") {
+			continue
+		}
+		b := base(n)
+		if !seenBase[b] && !missDone[b] {
 			if _, isKnown := openKnown[n]; !isKnown {
-				missing = append(missing, n)
+				missDone[b] = true
+				missing = append(missing, b)
 			}
 		}
 	}
@@ -390,7 +412,7 @@ func writeEvidence(e *Engine, opts Options, prop string, pr *propRun, per []map[
 // was confirmed against the real code.
 func writeReplay(e *Engine, opts Options, prop, dir string, d Discharged, reason string) (string, bool) {
 	base := filepath.Join(dir, fileSafe(d.O.Name))
-	if d.V.Status == "refuted" && d.O.Unit.fn != nil {
+	if (d.V.Status == "refuted" || d.V.Status == "undecided") && d.O.Unit.fn != nil {
 		if path, ok := e.replayObligation(opts, prop, base, d); ok {
 			return path, true
 		} else if path != "" {
